@@ -1,6 +1,6 @@
 (* C11 — node ids handed out are fresh, in range, never handed out twice. *)
 From Coq Require Import List NArith ZArith String.
-From AMS Require Import Models GatewayFacts GatewayInv GatewaySteps.
+From AMS Require Import Models GatewayFacts GatewayInv GatewaySteps GatewayAlloc.
 Import ListNotations.
 Local Open Scope Z_scope.
 
@@ -43,6 +43,33 @@ Print Assumptions C11_keys_grow.
 Theorem C11_next_fresh : forall ks, ~ In (next_id ks) ks.
 Proof. exact next_id_fresh. Qed.
 Print Assumptions C11_next_fresh.
+
+(* never handed out twice, over whole histories: take any history (receives, sends,
+   reconnects, any fault streams) from any state satisfying the invariant; if the id
+   request l1 received after ops1 is answered with a (handed_out: by C11_alloc exactly
+   the payload of the one id response attempted) and, after any further operations
+   ops2, the id request l2 is answered with b, then a <> b, a is still registered
+   then, and both are registered afterwards — also when the answers' writes fail *)
+Theorem C11_never_twice :
+  forall bat vlt now w ops1 l1 f1 ops2 l2 f2 a b,
+    Inv vlt w -> Forall op_ok ops1 -> Forall op_ok ops2 ->
+    let w1 := run_ops bat vlt now w ops1 in
+    let w2 := run_ops bat vlt now (world_after bat vlt now w1 (ORecv l1 f1)) ops2 in
+    handed_out w1 l1 = Some a -> handed_out w2 l2 = Some b ->
+    a <> b /\ In a (keys w2) /\ In a (keys (world_after bat vlt now w2 (ORecv l2 f2)))
+    /\ In b (keys (world_after bat vlt now w2 (ORecv l2 f2))).
+Proof. exact never_twice. Qed.
+Print Assumptions C11_never_twice.
+
+(* the hypotheses are met by a concrete history: two id requests with a failing answer,
+   a presentation of the first id and a reconnect in between get 1 and 2 *)
+Example C11_never_twice_example :
+  let w := fst (fst (recv (fun _ => Some 5) (vlt_full (fun _ _ => None)) 0 (init_world true) [] (lit "0;255;3;0;2;2.1"))) in
+  let ops2 := [ORecv (lit "1;255;0;0;17;2.1") []; OReconnect; ORecv (lit "9;1;1;0;2;1") [true]] in
+  let w2 := run_ops (fun _ => Some 5) (vlt_full (fun _ _ => None)) 0
+              (world_after (fun _ => Some 5) (vlt_full (fun _ _ => None)) 0 w (ORecv (lit "255;255;3;0;3;") [true])) ops2 in
+  handed_out w (lit "255;255;3;0;3;") = Some 1 /\ handed_out w2 (lit "255;255;3;0;3;") = Some 2.
+Proof. vm_compute. split; reflexivity. Qed.
 
 (* the id request is type 3 and the answer type 4 of the internal command, in every generated table *)
 Theorem C11_tables :
